@@ -167,7 +167,7 @@ static void run(Src &s) {
       auto sp = s.span();
       if (!(n < 40 && s.chance(90))) break;
       n++;
-      const SecArg &sa = SEC_ARGS[s.below(8)];
+      const SecArg &sa = SEC_ARGS[s.below(N_SEC_ARGS)];
       const std::string &key = hist_keys()[s.below((uint32_t)hist_keys().size())];
       std::string val = gen_safe_value(s, d, c);
       econf_err ee;
